@@ -176,6 +176,25 @@ func c01Alterations(k *vfKey, honest *ProofD, attrs []*big.Int) []c01Alt {
 		shift("ordshift:a_response", fmt.Sprintf("a_responses[%d]", i), func(p *ProofD) *big.Int { return p.AResponses[i] }, func(p *ProofD, v *big.Int) { p.AResponses[i] = v }, pk.Params.LmCommit)
 	}
 	shift("ordshift:e_response", "e_response", func(p *ProofD) *big.Int { return p.EResponse }, func(p *ProofD, v *big.Int) { p.EResponse = v }, pk.Params.LeCommit)
+	// disclosed VALUES shifted by multiples of the group order, in both directions (R_i^(a+k*ord) = R_i^a:
+	// only the treatment of over-long / negative values stands between such a value and acceptance)
+	// (not on toy keys whose group order is no longer than a message: there a+ord IS another message with
+	// the same signature - a property of such a key, not of the verifier)
+	for _, i := range dis {
+		if ord.BitLen() <= int(pk.Params.Lm)+8 {
+			break
+		}
+		for _, kk := range []int64{1, -1, 2, -2, 1000003, -1000003} {
+			i, kk := i, kk
+			where := "above-2^lm"
+			if kk < 0 {
+				where = "below-0"
+			}
+			add("ordshift:a_disclosed:"+where, fmt.Sprintf("a_disclosed[%d] += %d*ord", i, kk), func(p *ProofD) {
+				p.ADisclosed[i] = new(big.Int).Add(p.ADisclosed[i], new(big.Int).Mul(vfInt(kk), ord))
+			})
+		}
+	}
 	return alts
 }
 
@@ -235,7 +254,7 @@ func c01Shapes(pk *gabikeys.PublicKey, maxN int) []c01Shape {
 func c01Run(t *testing.T, sub, keyName string, maxN int, withAlterations bool, maxDev int, nonrev bool, qb, tb time.Duration) {
 	r := vkit.Start(t, "C01", sub, qb, tb)
 	defer r.Finish()
-	r.Rule = "credential shapes (n attrs; tags / boundary sizes incl. hashed / all-equal) x every disclosure subset; per honest proof every alteration of the menu (leaf arithmetic, swaps, key move/copy/delete/re-key, split(x), compensated pairs, k*ord shifts at both range ends); honest proofs also under <=1 environment-answer deviation; non-trivial = distinct (shape,subset,alteration) whose altered proof differs from the honest one; oracle: accepted => disjoint index sets, reported values = signed values, responses in protocol range, reference verifier agrees; honest => accepted"
+	r.Rule = "credential shapes (n attrs; tags / boundary sizes incl. hashed / all-equal) x every disclosure subset; per honest proof every alteration of the menu (disclosed values shifted by +-k*ord for k in {1,2,1000003}, leaf arithmetic, swaps, key move/copy/delete/re-key, split(x), compensated pairs, k*ord shifts at both range ends); honest proofs also under <=1 environment-answer deviation; non-trivial = distinct (shape,subset,alteration) whose altered proof differs from the honest one; oracle: accepted => disjoint index sets, reported values = signed values, responses in protocol range, reference verifier agrees; honest => accepted"
 	k := vfK(keyName)
 	pk := k.Pk
 	env := vfInstallEnv(t, "C01/"+sub, r.Seed)
